@@ -127,10 +127,13 @@ CLAIMED = {
          'test_position): for initialise followed by ANY operation sequence the interval list stays sorted, disjoint, well-formed and inside [_pos,_posm] (and free of empty intervals '
          'on zones of non-zero width); a weighted insert keeps exactly the same positions on offer; no operation ever adds a position; a position strictly inside an excluded range is '
          'never offered again (zones of non-zero width); closest() answers inside an interval however the float division rounds; the unrestricted exclusion statement is REFUTED '
-         '(zero-width zone).  Tie B: the same operation sequences on the real Zones class (component harness) and the extracted model, full list (bounds, weights, open flag) compared '
-         'after every operation.  Oracle on the implementation: sortedness, bounds, excluded ranges, closest answers; collision fonts end to end under ASan/UBSan.',
-    note='partial: only the interval-set clause of C17 is proved.  The geometric clauses (accumulated offset inside the limit rectangle at each step, resolved verdict implies no octabox '
-         'overlap) are not modelled; ShiftCollider/KernCollider are exercised end to end on the Awami fonts under sanitizers only.  One known finding (zero-width zones).',
+         '(zero-width zone).  Limit clause: the range bounds of the four axes and the shift arithmetic of ShiftCollider::initSlot / resolve are REGENERATED from src/Collider.cpp by an expression '
+         'translator (tie A) and the theorem is proved over them: with a well-formed limit and the glyph inside it, every position of every axis range maps to offset + shift inside the limit rectangle, '
+         'and the four ranges are well-formed zones.  Tie B: the same operation sequences on the real Zones class (component harness) and the extracted model, full list (bounds, weights, open flag) compared '
+         'after every operation; the real ShiftCollider driven (initSlot, everything but a sliver at one end of one axis excluded, resolve) and its answer checked against the limit rectangle.  Oracle on the '
+         'implementation: sortedness, bounds, excluded ranges, closest answers; collision fonts end to end under ASan/UBSan.',
+    note='partial: the interval-set and limit clauses are proved (over integer coordinates; the arithmetic is affine/min so the reals behave alike, float rounding is outside).  The resolved-verdict clause '
+         '(no octabox overlap) and KernCollider are not modelled: exercised end to end on the Awami fonts under sanitizers only.  One known finding (zero-width zones).',
     technique='Coq proof (sortedness/disjointness invariant over arbitrary op sequences, coverage monotonicity, exclusion permanence, refutation witness) over hand model + differential correspondence on the real class + oracle',
     design='6/C17'),
  'C18': dict(
